@@ -179,6 +179,15 @@ def build():
     ib = impl_body(inp, r"impl\s+Iterator\s+for\s+Zonefile\s*\{")
     one(r"self\.next_entry\(\)\.transpose\(\)", ib, "Iterator for Zonefile")
 
+    # ---- the constructors hand the octets over unchanged
+    lb = fn_body(inp, "load", after="impl Zonefile")
+    copies = bool(re.search(r"let\s+mut\s+buf\s*=\s*Self::new\(\)\.writer\(\);\s*std::io::copy\(read,\s*&mut\s+buf\)\?;\s*Ok\(buf\.into_inner\(\)\)", lb))
+    defs.append(("load_copies_octets", "bool", "true" if copies else "false"))
+    fb = impl_body(inp, r"impl<'a>\s+From<&'a\s+\[u8\]>\s+for\s+Zonefile\s*\{")
+    one(r"let\s+mut\s+res\s*=\s*Self::with_capacity\(src\.len\(\)\s*\+\s*1\);\s*res\.extend_from_slice\(src\);\s*res", fb, "From<&[u8]> for Zonefile")
+    sb2 = impl_body(inp, r"impl<'a>\s+From<&'a\s+str>\s+for\s+Zonefile\s*\{")
+    one(r"Self::from\(src\.as_bytes\(\)\)", sb2, "From<&str> for Zonefile")
+
     # ---- scan_string: is the closing quote kept out of the result?
     b = fn_body(inp, "scan_string", after="impl Scanner for EntryScanner")
     if re.search(r"let\s+mut\s+write\s*=\s*self\.zonefile\.buf\.start\s*;", b):
